@@ -77,7 +77,7 @@ def connection_part(ctx, thorough):
     from harness import amp_scen as A
     from harness.impl_builder import BuilderTap
     from harness.impl_amp import AmpObserver, compare
-    n_seeds = 80 if thorough else 16
+    n_seeds = 80 if thorough else 12
     stats = {"builders": 0, "builder_lines": 0, "budget_checked": 0, "amp_lines": 0, "amp_sends": 0, "amp_validate": 0,
              "amp_promote": 0, "amp_new_address": 0, "ping_with_full_window": 0, "path_response_from_other_address": 0}
     orc_n = {}
@@ -85,8 +85,18 @@ def connection_part(ctx, thorough):
     for seed in range(n_seeds):
         for mode in ("handshake", "zero_rtt", "migration"):
             runs.append(("scenario", f"{rng.seed()}/{seed}/{mode}", mode))
-        for kind in ("client_0rtt_pto", "server_silent_client", "server_close", "ping_full_window", "three_addresses", "cert_sizes"):
+        for kind in ("client_0rtt_pto", "server_silent_client", "server_close", "ping_full_window", "three_addresses", "cert_sizes", "handshake_addresses"):
             runs.append(("directed", f"{rng.seed()}/{seed}", kind))
+    # oracle-only runs (no builder / ledger replay): many cheap schedules of the rarer interleavings
+    for seed in range(240 if thorough else 60):
+        sim, orc = A.directed(f"{rng.seed()}/light{seed}", "handshake_addresses")
+        sim.close_taps()
+        ctx.count(("light", seed), orc.n["unvalidated_sends"] > 0)
+        for kind, text in orc.problems:
+            witness_once(ctx, f"wire: {text}", {"harness": "amp_scen.directed", "seed": f"{rng.seed()}/light{seed}",
+                                                "mode": "handshake_addresses", "log_tail": sim.log[-25:]},
+                         {"oracle": "wire", "kind": kind})
+        ctx.cov["traces_validated_against_impl"] += 1
     for how, seed, mode in runs:
         tap = BuilderTap()
         amps = [AmpObserver("server"), AmpObserver("client")]
@@ -179,7 +189,8 @@ def main(tier):
         "like connection.py, 30% arbitrary: correspondence only). connection: handshake / 0-RTT / migration schedules under "
         "loss, duplication, reordering, junk datagrams from three addresses, client rebinding, random close(), three "
         "max_datagram_size pairs; directed: silent peer + odd-sized junk + PTO, 0-RTT with a full window, application close "
-        "with the budget used up; server certificate chains of four sizes (in-memory EC leaf alone / +1 / +5 intermediates, "
+        "with the budget used up; the client's address changing DURING the handshake (each client datagram from A or B, "
+        "individual datagrams of either side lost, chains of four sizes, then a large response); server certificate chains of four sizes (in-memory EC leaf alone / +1 / +5 intermediates, "
         "the repo's RSA chain) x a client never heard from again (own address, spoofed source, replayed first Initial, junk) "
         "over 6-10 PTO rounds, and the same chains in the random handshake / migration schedules; after every call the "
         "endpoint's bytes_sent / bytes_received per unvalidated path are compared with the harness's own per-address counts of "
